@@ -744,8 +744,8 @@ theorem pagerOk_leafWalk (root : Nat) : ∀ ls : List (Nat × Nat), pagerOk fals
 theorem pagerOk_readerScan (root : Nat) (path : List Nat) (leaves : List (Nat × Nat)) :
     pagerOk false (readerScan root path leaves) = true := by
   unfold readerScan
-  exact pagerOk_append _ _ _ (pagerOk_append _ _ _ (pagerOk_append _ _ _ (pagerOk_readerDescent _) (pagerOk_fetch root .R))
-    (pagerOk_leafWalk root leaves)) (by simp [pagerOk])
+  exact pagerOk_append _ _ _ (pagerOk_append _ _ _ (pagerOk_append _ _ _ (pagerOk_append _ _ _ (pagerOk_readerDescent _)
+    (pagerOk_fetch root .R)) (pagerOk_readerDescent _)) (pagerOk_leafWalk root leaves)) (by simp [pagerOk])
 
 theorem pagerOk_readerSearch (root : Nat) (path : List Nat) : pagerOk false (readerSearch root path) = true := by
   unfold readerSearch
@@ -801,8 +801,8 @@ theorem noW_leafWalk (root : Nat) : ∀ ls : List (Nat × Nat), noW (leafWalk ro
 theorem noW_readerScan (root : Nat) (path : List Nat) (leaves : List (Nat × Nat)) :
     noW (readerScan root path leaves) = true := by
   unfold readerScan
-  exact noW_append _ _ (noW_append _ _ (noW_append _ _ (noW_readerDescent _) (by simp [fetch, noW])) (noW_leafWalk root leaves))
-    (by simp [noW])
+  exact noW_append _ _ (noW_append _ _ (noW_append _ _ (noW_append _ _ (noW_readerDescent _) (by simp [fetch, noW]))
+    (noW_readerDescent _)) (noW_leafWalk root leaves)) (by simp [noW])
 
 theorem noW_readerSearch (root : Nat) (path : List Nat) : noW (readerSearch root path) = true := by
   unfold readerSearch
@@ -1025,10 +1025,32 @@ theorem guarded_rowReads_root {rootOf : Nat → Nat} {r : Nat} (hD : D.readLatch
     · simp only [List.cons_append, List.nil_append, guarded, relOne, beq_self_eq_true, if_true, Bool.not_false, Bool.true_and]
       exact guarded_rowReads_root hD hrr n rest h
 
-/-- tree-shape hypothesis of a scan: the leaves are pages of the tree; with the defect (read latches that queue behind a
+/-- the left-most descent under the read-latched root: every page is a page of the tree other than the root -/
+theorem guarded_descentUnder {rootOf : Nat → Nat} {r : Nat} (hrr : rootOf r = r) :
+    ∀ (ps : List Nat) (rest : List Instr), (∀ p ∈ ps, rootOf p = r ∧ p ≠ r) →
+      guarded D rootOf [(r, .R)] false rest = true → guarded D rootOf [(r, .R)] false (readerDescent ps ++ rest) = true
+  | [], rest, _, h => by simpa [readerDescent] using h
+  | p :: ps, rest, hps, h => by
+    obtain ⟨hl, hne⟩ := hps p List.mem_cons_self
+    unfold readerDescent
+    rw [List.append_assoc, List.append_assoc]
+    apply guarded_fetch
+    · apply acqOk_of
+      · intro x hx
+        simp only [List.mem_cons, List.mem_nil_iff, or_false] at hx
+        subst hx
+        exact ⟨(r, .R), by simp, by simp [hrr], Or.inl rfl⟩
+      · refine ⟨fun h0 => (hne (by rw [← hl, h0])).elim, fun _ h0 => (by cases h0), fun _ _ => ?_⟩
+        refine ⟨⟨(r, .R), by simp, by simp [hl], Or.inl rfl⟩, Or.inl rfl, by simp⟩
+    · have hb : (p == p) = true := by simp
+      simp only [List.cons_append, List.nil_append, guarded, relOne, hb, if_true, Bool.not_false, Bool.true_and]
+      exact guarded_descentUnder hrr ps rest (fun q hq => hps q (List.mem_cons_of_mem _ hq)) h
+
+/-- tree-shape hypothesis of a scan: the left-most path and the leaves are pages of the tree (the path without the root); with the defect (read latches that queue behind a
     parked writer) they must moreover differ from the root, i.e. the table has more than one page -/
-def leavesIn (D : Defects) (rootOf : Nat → Nat) (r : Nat) (ls : List (Nat × Nat)) : Bool :=
-  rootOf r == r && ls.all (fun l => rootOf l.1 == r && (l.1 != r || !D.readLatchQueuesBehindWriter))
+def leavesIn (D : Defects) (rootOf : Nat → Nat) (r : Nat) (path : List Nat) (ls : List (Nat × Nat)) : Bool :=
+  rootOf r == r && !D.readLatchQueuesBehindWriter && path.all (fun p => rootOf p == r && p != r) &&
+    ls.all (fun l => rootOf l.1 == r)
 
 theorem guarded_leafWalk {rootOf : Nat → Nat} {r : Nat} (hrr : rootOf r = r) :
     ∀ (ls : List (Nat × Nat)) (rest : List Instr),
@@ -1063,19 +1085,20 @@ theorem guarded_leafWalk {rootOf : Nat → Nat} {r : Nat} (hrr : rootOf r = r) :
         exact ih
 
 theorem guarded_readerScan {rootOf : Nat → Nat} {r : Nat} {path : List Nat} {leaves : List (Nat × Nat)}
-    (h : leavesIn D rootOf r leaves = true) {rest : List Instr} (hrest : guarded D rootOf [] false rest = true) :
+    (h : leavesIn D rootOf r path leaves = true) {rest : List Instr} (hrest : guarded D rootOf [] false rest = true) :
     guarded D rootOf [] false (readerScan r path leaves ++ rest) = true := by
   unfold leavesIn at h
-  simp only [Bool.and_eq_true, beq_iff_eq, List.all_eq_true, bne_iff_ne, ne_eq, Bool.or_eq_true,
-    Bool.not_eq_true'] at h
+  simp only [Bool.and_eq_true, beq_iff_eq, List.all_eq_true, bne_iff_ne, ne_eq, Bool.not_eq_true'] at h
+  obtain ⟨⟨⟨hrr, hD⟩, hpath⟩, hls⟩ := h
   unfold readerScan
-  rw [List.append_assoc, List.append_assoc, List.append_assoc]
+  rw [List.append_assoc, List.append_assoc, List.append_assoc, List.append_assoc]
   apply guarded_readerDescent
   apply guarded_fetch
   · apply acqOk_of
     · simp
-    · exact ⟨fun _ => rfl, fun hr => (hr h.1).elim, fun _ hne => (hne rfl).elim⟩
-  · apply guarded_leafWalk h.1 leaves _ (fun l hl => h.2 l hl)
+    · exact ⟨fun _ => rfl, fun hr => (hr hrr).elim, fun _ hne => (hne rfl).elim⟩
+  · apply guarded_descentUnder hrr path _ hpath
+    apply guarded_leafWalk hrr leaves _ (fun l hl => ⟨hls l hl, Or.inr hD⟩)
     simpa [guarded] using hrest
 
 /-! ### writers -/
